@@ -4,12 +4,27 @@
 #include <stdexcept>
 #include <algorithm>
 #include <cstring>
+#include <cstdint>
 
 namespace OP2Utility
 {
+	// A negative width has no meaning. A height of INT32_MIN has no representable absolute value
+	// (negative heights denote top down scan lines)
+	static void VerifyDimensions(int32_t width, int32_t height)
+	{
+		if (width < 0) {
+			throw std::runtime_error("Image width may not be negative. Width is " + std::to_string(width));
+		}
+
+		if (height == INT32_MIN) {
+			throw std::runtime_error("Image height of " + std::to_string(height) + " is out of range");
+		}
+	}
+
 	ImageHeader ImageHeader::Create(int32_t width, int32_t height, uint16_t bitCount)
 	{
 		VerifyValidBitCount(bitCount);
+		VerifyDimensions(width, height);
 
 		return ImageHeader{
 			sizeof(ImageHeader),
@@ -107,6 +122,8 @@ namespace OP2Utility
 		}
 
 		VerifyValidBitCount(bitCount);
+
+		VerifyDimensions(width, height);
 
 		if (usedColorMapEntries > CalcMaxIndexedPaletteSize()) {
 			throw std::runtime_error("Used color map entries is greater than possible range of color map (palette)");
